@@ -285,7 +285,10 @@ def join(a, b, widen=False):
     side(a, b, False)
     side(b, a, True)
     for p, t in a.tag.items():
-        if b.tag.get(p) == t:
+        if b.tag.get(p) == t or (p not in b.tag and vacuous(p, b.tag)):
+            r.tag[p] = t
+    for p, t in b.tag.items():
+        if p not in r.tag and p not in a.tag and vacuous(p, a.tag):
             r.tag[p] = t
     for p in set(a.nottag) | set(a.tag):
         ea = set(a.nottag.get(p, ()))
